@@ -199,15 +199,15 @@ def step (d : Db) : Op → Db × Res Out
   | .createTrack =>
     let i := d.trSeq + 1
     ({ d with tracks := d.tracks ++ [i], trSeq := i }, .ok (some i))
-  -- database_impl::remove_track: memberships list by list (no transaction), then track_table::remove
+  -- database_impl::remove_track: one transaction — memberships list by list, then track_table::remove
+  -- (which throws when there is no such track: everything is rolled back)
   | .removeTrack t =>
     let pe := (ids d.pl).foldl (fun pe l =>
       match (pe.filter (fun r => r.key == l && r.val == t)).getLast? with
       | some e => deleteKeyed fires pe l e.id
       | none => pe) d.pe
-    let d1 := { d with pe := pe }
-    if d.tracks.contains t then ({ d1 with tracks := d.tracks.filter (· != t) }, .ok none)
-    else (d1, .throw .invalid_argument)
+    if d.tracks.contains t then ({ d with pe := pe, tracks := d.tracks.filter (· != t) }, .ok none)
+    else (d, .throw .invalid_argument)
   -- crate_impl::add_track
   | .addTrack c t =>
     if !plExists d c then (d, .throw (exn "crate_deleted"))
